@@ -70,6 +70,13 @@ def c04(rep, tier):
                  (ev.e.get('k') == 'call' and ev.e.get('callee_in_repo') and (ev.e.get('callee') or '').startswith('ParseState::') and
                   ev.e.get('callee') not in recorders and not ev.e.get('callee').endswith(('::lookahead', '::at_eof')))]
         okb = all(g.dominates(pushes[0], s) or not (guarded(g, s, mismatch, True) or guarded(g, s, matches, False)) for s in skips)
+    # ... and the comparison of the look-ahead with the expected token is made on every path through match(): an early return in front
+    # of it (e.g. "at the end marker: nothing to do") lets a missing token pass without a record (seed C04k-3)
+    cmps = [ev for ev in g.events if mismatch(ev.e) or matches(ev.e)]
+    B.check(bool(cmps) and any(g.on_all_paths(ev) for ev in cmps), 'ParseState::match: comparison on every path',
+            'lookahead() is compared with the expected token on every path from entry to return',
+            'match() can return without having compared the look-ahead with the expected token: on that path a mismatch (e.g. the input ends where END is expected) records no error and the truncated source is accepted',
+            'Compiler/src/parse.cpp:%d' % mt['loc'][1])
     B.check(okb, 'ParseState::match: mismatch', 'errors.push_back(...) under lookahead() != t, before skipping', 'a token mismatch is not recorded as an error',
             'Compiler/src/parse.cpp:%d' % mt['loc'][1])
     # ---------------------------------------------------------------- c
